@@ -114,7 +114,7 @@ def move_case(cid, rng, cfg, imgs):
 def reuse_case(cid, rng, cfg, imgs):
     # object 0 has a history, object 1 is fresh; both are re-initialised the same way
     im, b = rng.choice(imgs)
-    hist = rng.choice(["create", "load", "lazy", "moved-from", "saved"])
+    hist = rng.choice(["create", "load", "lazy", "lazy", "moved-from", "moved-to-lazy", "saved"])
     lines = ["obj 0", "ctor plain"]
     if hist == "create":
         lines += ["create %s %s" % other_cfg(cfg, rng)] + content_ops(rng, cfg)
@@ -124,14 +124,22 @@ def reuse_case(cid, rng, cfg, imgs):
         lines += ["load file 1 " + hx(b), "getdata 1"]
     elif hist == "moved-from":
         lines += ["create %s %s" % other_cfg(cfg, rng)] + content_ops(rng, cfg) + ["movector 3 0"]
+    elif hist == "moved-to-lazy":
+        # object 0 receives a lazily loaded object (and its open stream) by move assignment
+        lines += ["obj 4", "ctor plain", "load file 1 " + hx(b), "obj 0", "moveassign 0 4", "destroy 4"]
     else:
         lines += ["create %s %s" % cfg] + content_ops(rng, cfg) + ["save"]
     lines += ["obj 1", "ctor plain"]
-    if rng.random() < 0.5:
+    r = rng.random()
+    if r < 0.35:
         re = ["create %s %s" % cfg] + content_ops(rng, cfg)
-    else:
+    elif r < 0.55:
         im2, b2 = rng.choice(imgs)
         re = ["load str 0 " + hx(b2)]
+    else:
+        # by file name, eagerly or lazily (the object may still own the stream of an earlier lazy load)
+        im2, b2 = rng.choice(imgs)
+        re = ["load file %d %s" % (rng.randint(0, 1), hx(b2))]
     t = ["hashelf 6d61726b"] + re + ["obsall", "save"]
     for op in t:
         lines += ["obj 1", op, "obj 0", op]
